@@ -247,8 +247,8 @@ def _cr_is3(cr, first, last, size):
     # concrete components are rendered into the literal text: re-split on the known shape
     import re
 
-    toks = re.split("(⟦\\d+⟧)", cr)
-    text = "".join("\x00" if t.startswith("⟦") else t for t in toks)
+    toks = re.split("(\x01\\d+\x02)", cr)
+    text = "".join("\x00" if t.startswith("\x01") else t for t in toks)
     m = re.fullmatch(r"bytes (\x00|\d+)-(\x00|-?\d+)/(\x00|\d+)", text)
     if not m:
         return False
